@@ -56,7 +56,17 @@ class TokenManager(interfaces.RequestInterface, interfaces.TokenManager):
         while self.outgoing_requests:
             key = next(iter(self.outgoing_requests.keys()))
             request = self.outgoing_requests.pop(key)
-            request.add_exception(error.LibraryShutdown())
+            try:
+                request.add_exception(error.LibraryShutdown())
+            except Exception as e:
+                # An application's callback failing when told about the
+                # shutdown must not keep the other requests from being
+                # told, nor the transports from being shut down
+                self.log.error(
+                    "Exception raised from a request's error handling during shutdown: %r",
+                    e,
+                    exc_info=e,
+                )
         self.outgoing_requests = None
 
         await self.token_interface.shutdown()
